@@ -352,17 +352,27 @@ def trlog2(T, check=True, twist=False):
             else:
                 return np.zeros((3, 3))
         else:
-            if twist:
-                return base.vexa(scipy.linalg.logm(T))
+            # closed form: rotation angle from atan2, translation through the
+            # inverse of V = [sin(th) -(1-cos(th)); (1-cos(th)) sin(th)] / th
+            theta = math.atan2(T[1, 0], T[0, 0])
+            if abs(theta) < 1e-4:
+                half = 1 - theta ** 2 / 12  # (th/2) cot(th/2) for small th
             else:
-                return scipy.linalg.logm(T)
+                half = theta / 2 / math.tan(theta / 2)
+            Vinv = np.array([[half, theta / 2], [-theta / 2, half]])
+            tw = np.r_[Vinv @ T[:2, 2], theta]
+            if twist:
+                return tw
+            else:
+                return base.skewa(tw)
 
     elif isrot2(T, check=check):
         # SO(2) rotation matrix
+        theta = math.atan2(T[1, 0], T[0, 0])
         if twist:
-            return base.vex(scipy.linalg.logm(T))
+            return np.r_[theta]
         else:
-            return scipy.linalg.logm(T)
+            return base.skew([theta])
     else:
         raise ValueError("Expect SO(2) or SE(2) matrix")
 # ---------------------------------------------------------------------------------------#
